@@ -72,6 +72,14 @@ structure PInv (cf : Bool) (A : List Answer) (s : PState) : Prop where
   bg : s.bgRead = true → s.vpc = .done ∧ s.failed = true
   graceful : cf = true → s.mpc = .closingRecv → s.failed = false
   joining : s.mpc = .joining → s.cancelled = true
+  recv_err2 : ∀ e, s.recvErr = some (some e) →
+    s.cancelled = true ∨ s.timeoutFault = true ∨ s.ended = some e.code ∨ collect A [] false = .error e
+  send_err2 : ∀ e, s.sendErr = some (some e) →
+    s.cancelled = true ∨ s.timeoutFault = true ∨ (e.code = codeEOF ∧ s.ended.isSome = true)
+  result_err2 : ∀ e, s.result = some (.error e) →
+    s.timeoutFault = true ∨ (e.code = codeEOF ∧ s.ended.isSome = true) ∨ s.ended = some e.code ∨
+      collect A [] false = .error e
+  ended_sf : s.ended.isSome = true → s.streamFault = true
 
 theorem pinv_init (cf : Bool) (A : List Answer) : PInv cf A (init A.length) := by
   unfold init
@@ -93,12 +101,15 @@ theorem drop_of_getElem? {α : Type} : ∀ {A : List α} {i : Nat} {a : α}, A[i
     | succ j => simp at h; simp [ih h]
 
 macro "pinv_close" hi:ident : tactic => `(tactic|
-  (obtain ⟨h1, h2, h3, h4, h5, h6, h7, h8, h9, h10, h11, h12, h13, h14, h15, h16, h17, h18⟩ := $hi
+  (obtain ⟨h1, h2, h3, h4, h5, h6, h7, h8, h9, h10, h11, h12, h13, h14, h15, h16, h17, h18, h19, h20, h21, h22⟩ := $hi
    constructor <;> simp_all <;> first | omega | grind))
 
+set_option maxHeartbeats 4000000 in
 theorem pinv_mainGot (cf : Bool) (A : List Answer) (s s' : PState) (k : Nat) (v : Option Err)
     (hi : PInv cf A s) (hk : s.mpc = .reading k)
     (hv : ∀ e, v = some e → s.streamFault = true ∨ collect A [] false = .error e)
+    (hv2 : ∀ e, v = some e → s.timeoutFault = true ∨ (e.code = codeEOF ∧ s.ended.isSome = true) ∨
+      s.ended = some e.code ∨ collect A [] false = .error e)
     (h : mainGot s k v = some s') : PInv cf A s' := by
   have hrd := hi.reading k hk
   unfold mainGot at h
@@ -106,7 +117,8 @@ theorem pinv_mainGot (cf : Bool) (A : List Answer) (s s' : PState) (k : Nat) (v 
   | some e =>
     simp at h; subst h
     have := hv e rfl
-    obtain ⟨h1, h2, h3, h4, h5, h6, h7, h8, h9, h10, h11, h12, h13, h14, h15, h16, h17, h18⟩ := hi
+    have := hv2 e rfl
+    obtain ⟨h1, h2, h3, h4, h5, h6, h7, h8, h9, h10, h11, h12, h13, h14, h15, h16, h17, h18, h19, h20, h21, h22⟩ := hi
     constructor <;> simp_all
   | none =>
     simp only at h
@@ -115,12 +127,12 @@ theorem pinv_mainGot (cf : Bool) (A : List Answer) (s s' : PState) (k : Nat) (v 
       · rename_i fs p hres
         simp at h; subst h
         have hr := hi.res_ok fs p hres
-        obtain ⟨h1, h2, h3, h4, h5, h6, h7, h8, h9, h10, h11, h12, h13, h14, h15, h16, h17, h18⟩ := hi
+        obtain ⟨h1, h2, h3, h4, h5, h6, h7, h8, h9, h10, h11, h12, h13, h14, h15, h16, h17, h18, h19, h20, h21, h22⟩ := hi
         constructor <;> simp_all
         all_goals (cases p <;> simp_all)
       · simp at h
     · simp at h; subst h
-      obtain ⟨h1, h2, h3, h4, h5, h6, h7, h8, h9, h10, h11, h12, h13, h14, h15, h16, h17, h18⟩ := hi
+      obtain ⟨h1, h2, h3, h4, h5, h6, h7, h8, h9, h10, h11, h12, h13, h14, h15, h16, h17, h18, h19, h20, h21, h22⟩ := hi
       constructor <;> simp_all
 
 set_option maxHeartbeats 4000000 in
@@ -144,9 +156,40 @@ theorem pinv_step (cf : Bool) (A : List Answer) (s : PState) (l : Label) (s' : P
       split at h
       · simp at h; subst h
         have := hi.r_send i hr
-        obtain ⟨h1, h2, h3, h4, h5, h6, h7, h8, h9, h10, h11, h12, h13, h14, h15, h16, h17, h18⟩ := hi
+        obtain ⟨h1, h2, h3, h4, h5, h6, h7, h8, h9, h10, h11, h12, h13, h14, h15, h16, h17, h18, h19, h20, h21, h22⟩ := hi
         constructor <;> simp_all
         all_goals (first | omega | (cases hc : s.cancelled <;> simp_all <;> grind))
+      · simp at h
+    · simp at h
+  | reqSendEOF =>
+    simp only [step] at h
+    split at h
+    · rename_i i hr
+      split at h
+      · simp at h; subst h
+        have := hi.r_send i hr
+        obtain ⟨h1, h2, h3, h4, h5, h6, h7, h8, h9, h10, h11, h12, h13, h14, h15, h16, h17, h18, h19, h20, h21, h22⟩ := hi
+        constructor <;> simp_all
+        all_goals (first | omega | grind)
+      · simp at h
+    · simp at h
+  | streamEnd c =>
+    simp only [step] at h
+    split at h
+    · simp at h; subst h
+      obtain ⟨h1, h2, h3, h4, h5, h6, h7, h8, h9, h10, h11, h12, h13, h14, h15, h16, h17, h18, h19, h20, h21, h22⟩ := hi
+      constructor <;> simp_all
+      all_goals (first | omega | grind)
+    · simp at h
+  | rcvStatus =>
+    simp only [step] at h
+    split at h
+    · rename_i i c hv hen
+      split at h
+      · simp at h; subst h
+        obtain ⟨h1, h2, h3, h4, h5, h6, h7, h8, h9, h10, h11, h12, h13, h14, h15, h16, h17, h18, h19, h20, h21, h22⟩ := hi
+        constructor <;> simp_all
+        all_goals (first | omega | grind)
       · simp at h
     · simp at h
   | reqSignal =>
@@ -202,7 +245,7 @@ theorem pinv_step (cf : Bool) (A : List Answer) (s : PState) (l : Label) (s' : P
       · split at h
         all_goals (try (simp at h))
         all_goals (rename_i hget; subst h; have hd := drop_of_getElem? hget; rw [hd] at hvr; simp only [collect] at hvr)
-        all_goals (obtain ⟨h1, h2, h3, h4, h5, h6, h7, h8, h9, h10, h11, h12, h13, h14, h15, h16, h17, h18⟩ := hi)
+        all_goals (obtain ⟨h1, h2, h3, h4, h5, h6, h7, h8, h9, h10, h11, h12, h13, h14, h15, h16, h17, h18, h19, h20, h21, h22⟩ := hi)
         all_goals (constructor <;> simp_all)
         all_goals (first | omega | grind)
       · simp at h
@@ -212,7 +255,7 @@ theorem pinv_step (cf : Bool) (A : List Answer) (s : PState) (l : Label) (s' : P
     split at h
     · rename_i i hv
       simp at h; subst h
-      obtain ⟨h1, h2, h3, h4, h5, h6, h7, h8, h9, h10, h11, h12, h13, h14, h15, h16, h17, h18⟩ := hi
+      obtain ⟨h1, h2, h3, h4, h5, h6, h7, h8, h9, h10, h11, h12, h13, h14, h15, h16, h17, h18, h19, h20, h21, h22⟩ := hi
       constructor <;> simp_all
       all_goals (first | omega | (cases hc : s.cancelled <;> simp_all <;> grind))
     · simp at h
@@ -229,7 +272,7 @@ theorem pinv_step (cf : Bool) (A : List Answer) (s : PState) (l : Label) (s' : P
         have hfin : collect A [] false = if s.poison = true then .error ⟨codeUnknown⟩ else .ok s.acc := by
           rw [hw.2, hdrop]; simp [collect]
         clear hdrop hw
-        obtain ⟨h1, h2, h3, h4, h5, h6, h7, h8, h9, h10, h11, h12, h13, h14, h15, h16, h17, h18⟩ := hi
+        obtain ⟨h1, h2, h3, h4, h5, h6, h7, h8, h9, h10, h11, h12, h13, h14, h15, h16, h17, h18, h19, h20, h21, h22⟩ := hi
         constructor <;> simp_all
         all_goals (first | omega | grind)
     · simp at h
@@ -240,12 +283,16 @@ theorem pinv_step (cf : Bool) (A : List Answer) (s : PState) (l : Label) (s' : P
       split at h
       · have hrd := hi.reading k hm
         have hse := hi.send_err
-        refine pinv_mainGot cf A _ s' k v ?_ (by simpa using hm) ?_ h
-        · obtain ⟨h1, h2, h3, h4, h5, h6, h7, h8, h9, h10, h11, h12, h13, h14, h15, h16, h17, h18⟩ := hi
+        have hse2 := hi.send_err2
+        refine pinv_mainGot cf A _ s' k v ?_ (by simpa using hm) ?_ ?_ h
+        · obtain ⟨h1, h2, h3, h4, h5, h6, h7, h8, h9, h10, h11, h12, h13, h14, h15, h16, h17, h18, h19, h20, h21, h22⟩ := hi
           constructor <;> simp_all
         · intro e he; subst he
           have := hse e hs
           simp_all
+        · intro e he; subst he
+          have := hse2 e hs
+          simp_all <;> grind
       · simp at h
     · simp at h
   | mainReadRecv =>
@@ -255,12 +302,16 @@ theorem pinv_step (cf : Bool) (A : List Answer) (s : PState) (l : Label) (s' : P
       split at h
       · have hrd := hi.reading k hm
         have hre := hi.recv_err
-        refine pinv_mainGot cf A _ s' k v ?_ (by simpa using hm) ?_ h
-        · obtain ⟨h1, h2, h3, h4, h5, h6, h7, h8, h9, h10, h11, h12, h13, h14, h15, h16, h17, h18⟩ := hi
+        have hre2 := hi.recv_err2
+        refine pinv_mainGot cf A _ s' k v ?_ (by simpa using hm) ?_ ?_ h
+        · obtain ⟨h1, h2, h3, h4, h5, h6, h7, h8, h9, h10, h11, h12, h13, h14, h15, h16, h17, h18, h19, h20, h21, h22⟩ := hi
           constructor <;> simp_all
         · intro e he; subst he
           have := hre e hs
           simp_all
+        · intro e he; subst he
+          have := hre2 e hs
+          simp_all <;> grind
       · simp at h
     · simp at h
   | mainJoin =>
@@ -323,7 +374,7 @@ theorem idealAnswers_spec (pol : Policy) : ∀ (reqs : List Request) (h : Histor
 /-- stream reads in flight never exceed one when close() skips its Recv on a failed stream -/
 theorem reads_le_one (A : List Answer) (s : PState) (hi : PInv true A s) : reads s ≤ 1 := by
   unfold reads
-  obtain ⟨h1, h2, h3, h4, h5, h6, h7, h8, h9, h10, h11, h12, h13, h14, h15, h16, h17, h18⟩ := hi
+  obtain ⟨h1, h2, h3, h4, h5, h6, h7, h8, h9, h10, h11, h12, h13, h14, h15, h16, h17, h18, h19, h20, h21, h22⟩ := hi
   cases hb : s.bgRead
   · by_cases hm : s.mpc = .closingRecv
     · have := h15 (by rw [hm]; simp) (by intro k; rw [hm]; simp)
